@@ -116,9 +116,9 @@ def parseConfig (sh : Shape) (w : Array String) (p : Nat) : Config F × Nat := I
     for k in kinds do
       vals := vals ++ [if w[r]! == "-" then none else some (parseVal k w[r]!)]
       r := r + 1
-    kfs := kfs ++ [⟨t, e, vals⟩]
+    kfs := ⟨t, e, vals⟩ :: kfs          -- collected in reverse (linear time; timelines of 70 000 keyframes)
     q := r
-  return ({ easing := e0, delay := delay, duration := dur, keyframes := kfs, repeat_ := rep, reverse := rev }, q)
+  return ({ easing := e0, delay := delay, duration := dur, keyframes := kfs.reverse, repeat_ := rep, reverse := rev }, q)
 
 def toQ : Val F → Val Rat
   | .num x => .num (Spec.ratOfF32 x)
